@@ -234,7 +234,9 @@ class Partitioner:
                 if j == 0:
                     block.add(self.__nway_shape(rank, part_rank, part, i))
                 else:
-                    block.add(self.__nway_shape(part_rank, part_rank, part, i))
+                    block.add(
+                        self.__nway_shape(
+                            rank, part_rank, part, i, False))
 
             elif part.data == "uniform_occupancy":
                 # The dynamic partitioning must be of the current top rank
@@ -352,9 +354,14 @@ class Partitioner:
             rank: str,
             part_rank: str,
             part: Tree,
-            depth: int) -> Statement:
+            depth: int,
+            halo: bool = True) -> Statement:
         """
         Partition into the given number of partitions in coordinate space
+
+        Note: the upper coordinates of an already split rank are still in the
+        space of rank (so the step must be translated), but they do not need
+        a halo
         """
         # Build the step
         parts: Expression
@@ -369,7 +376,7 @@ class Partitioner:
         step = EBinOp(fdiv, OAdd(), EInt(1))
 
         # Build the splitUniform
-        return self.__split_uniform(rank, part_rank, step, depth)
+        return self.__split_uniform(rank, part_rank, step, depth, halo)
 
     def __split_equal(self, rank: str, part_rank: str,
                       size: Expression) -> Statement:
@@ -432,7 +439,8 @@ class Partitioner:
             rank: str,
             part_rank: str,
             step: Expression,
-            depth: int) -> Statement:
+            depth: int,
+            halo: bool = True) -> Statement:
         """
         Build a call to splitUniform
         """
@@ -458,7 +466,9 @@ class Partitioner:
         args.append(AParam("depth", EInt(depth)))
 
         # Add the halos
-        pre_halo, post_halo = self.__build_halo(rank, part_rank)
+        pre_halo, post_halo = None, None
+        if halo:
+            pre_halo, post_halo = self.__build_halo(rank, part_rank)
         if pre_halo:
             args.append(AParam("pre_halo", pre_halo))
         if post_halo:
